@@ -2,7 +2,8 @@
 //
 // A line is a list of fields separated by single spaces.  A field is a byte
 // string, percent-encoded: every byte outside 0x21..0x7e, and '%' itself, is
-// written %XX; the empty string is written %_.
+// written %XX (as are the separators , ; : = @ | used inside outcomes); the
+// empty string is written %_.
 package wire
 
 import (
@@ -21,7 +22,7 @@ func Enc(s string) string {
 	var b strings.Builder
 	for i := 0; i < len(s); i++ {
 		c := s[i]
-		if c < 33 || c > 126 || c == '%' {
+		if c < 33 || c > 126 || c == '%' || c == ',' || c == ';' || c == ':' || c == '=' || c == '@' || c == '|' {
 			b.WriteByte('%')
 			b.WriteByte(hexd[c>>4])
 			b.WriteByte(hexd[c&15])
